@@ -243,8 +243,16 @@ func NewWorld(t *testing.T, kind string, tp int64, opt string, ska, skb int64) *
 	for _, a := range [][]string{{"ok"}, {"err"}} {
 		w.registerAck("v1", a)
 	}
-	for _, a := range [][]string{{"ok"}, {"ok", "ok"}, {"ok", "ok", "ok"}, {"SENTINEL"}} {
-		w.registerAck("v2", a)
+	w.registerAck("v2", []string{"SENTINEL"})
+	oks := []string{"ok", "ok1", "ok2"}
+	for _, a := range oks {
+		w.registerAck("v2", []string{a})
+		for _, b := range oks {
+			w.registerAck("v2", []string{a, b})
+			for _, c := range oks {
+				w.registerAck("v2", []string{a, b, c})
+			}
+		}
 	}
 
 	// final synchronisation: relative height 0 at tick 1, clients updated to it at tick 2
@@ -464,8 +472,19 @@ func v1AckBytes(a []string, canon bool) []byte {
 	return bz
 }
 
+func ackOfPayload(d string) string {
+	if d == "ok1" || d == "ok2" {
+		return d
+	}
+	return "ok"
+}
+
 func v2AppAck(a string) []byte {
 	switch a {
+	case "ok1":
+		return []byte("mock acknowledgement one")
+	case "ok2":
+		return []byte("mock acknowledgement two")
 	case "ok":
 		return mockv2.MockRecvPacketResult.Acknowledgement
 	case "SENTINEL":
@@ -659,7 +678,7 @@ func (w *World) installApps() {
 				w.appWrite(ctx, fmt.Sprintf("v2/%d", seq), idx, absV2Data(pl))
 				switch outcomeOf(absV2Data(pl)) {
 				case "ok":
-					return mockv2.MockRecvPacketResult
+					return channeltypesv2.RecvPacketResult{Status: channeltypesv2.PacketStatus_Success, Acknowledgement: v2AppAck(ackOfPayload(absV2Data(pl)))}
 				case "async":
 					return channeltypesv2.RecvPacketResult{Status: channeltypesv2.PacketStatus_Async}
 				}
@@ -695,6 +714,10 @@ func (w *World) noteV2(ctx sdk.Context, ev, srcID, dstID string, seq uint64, pl 
 	var a string
 	if ack != nil {
 		switch string(ack) {
+		case string(v2AppAck("ok1")):
+			a = "ok1"
+		case string(v2AppAck("ok2")):
+			a = "ok2"
 		case string(mockv2.MockRecvPacketResult.Acknowledgement):
 			a = "ok"
 		case string(channeltypesv2.ErrorAcknowledgement[:]):
